@@ -4,6 +4,7 @@ import (
 	"context"
 	"fmt"
 	"hash/fnv"
+	"math/rand"
 	"runtime"
 	"sort"
 	"strconv"
@@ -200,6 +201,9 @@ func Run(t *testing.T, cfg Config, body func(s *Sim)) (res *Result) {
 	} else {
 		s.ch.r = newRng(cfg.Seed)
 	}
+	// math/rand's global source (badger's ActiveHosts shuffle) is seeded per
+	// run; needs GODEBUG=randseednop=0 (set by the worker's go:debug line)
+	rand.Seed(int64(cfg.Seed))
 	res = &Result{Seed: cfg.Seed}
 	defer func() {
 		if r := recover(); r != nil {
